@@ -580,7 +580,11 @@ impl Store {
             for id in filter.ids() {
                 // (the limit is applied below, so that it keeps the newest
                 // of the listed events rather than the first listed)
-                if let Some(event) = self.get_event_by_id(id)? {
+                // (looked up in this query's own snapshot, like every other
+                // plan: a separate read transaction per id would let one
+                // answer mix several committed states)
+                if let Some(offset) = self.indexes.get_offset_by_id(&txn, id)? {
+                    let event = unsafe { self.events.get_event_by_offset(offset as usize)? };
                     // and check each against the rest of the filter
                     if filter.event_matches(event)? && screen(event) {
                         let _ = output.insert(event);
